@@ -71,7 +71,7 @@ func (a *Analyzer) binop(fr *frame, x *ssa.BinOp, st *State) Term {
 		// string concatenation
 		if xs, ok := xv.(*Slice); ok && x.Op == token.ADD {
 			if ys, ok := yv.(*Slice); ok {
-				return &Slice{Base: &Base{ID: a.id(), Desc: "concat", Fresh: true}, Off: Const(0), Len: xs.Len.Add(ys.Len), IsStr: true}
+				return &Slice{Base: &Base{ID: a.id(), Desc: "concat", Fresh: true, Op: "concat", From: xs, From2: ys}, Off: Const(0), Len: xs.Len.Add(ys.Len), IsStr: true}
 			}
 		}
 		return a.unknownOf(x.Type(), x.Name(), st)
